@@ -1,6 +1,6 @@
 PID = "C16"
 WORKER = "w_c16"
-HEADER = "From Coq Require Import List ZArith QArith Qcanon.\nFrom Dimod Require Import Base.Util Model.Poly Model.Comb Model.Penalty Model.CqmBqm Model.ChkC16.\nImport ListNotations."
+HEADER = "From Coq Require Import List ZArith QArith Qcanon.\nFrom Dimod Require Import Base.Util Model.Poly Model.Comb Model.Penalty Model.CqmBqm Model.DqmAdj Model.ChkC16.\nImport ListNotations."
 CHECK_FN = "check_eq"
 N_QUICK = 1920
 N_THOROUGH = 12000
@@ -12,7 +12,7 @@ RULE = ("linear constraints with integer coefficients/constants/bounds in +-12 o
         "binary_encoding(ub) for ub in 2..300, CQMs with binary/spin/zero-lower-bound integer variables and <= 3 linear integer "
         "constraints of all senses through cqm_to_bqm and its inverter; non-trivial = at least one term / slack variable / constraint; "
         "distinct by canonical JSON of the case")
-TRUSTED = ["model: coq/theories/Model/Penalty.v, CqmBqm.v, Comb.v, Poly.v, ChkC16.v (hand written, tied by this correspondence)",
+TRUSTED = ["model: coq/theories/Model/Penalty.v, CqmBqm.v, DqmAdj.v, Comb.v, Poly.v, ChkC16.v (hand written, tied by this correspondence)",
            "BQM and DQM kinds: all assignments x all slack assignments are enumerated INSIDE Coq on the coefficients the implementation reports",
            "cqm kind: the worker enumerates all BQM samples with bqm.energies (exact on the dyadic data) and the Python inverter, and feeds "
            "per-CQM-assignment minima to Coq, which computes objective, feasibility and the comparison",
@@ -21,4 +21,4 @@ ASSUMPTIONS = ["the coefficients a model reports (linear, quadratic, offset) def
                "IEEE-754 arithmetic is exact on the small dyadic coefficients generated",
                "inequality constraints are generated for BINARY BQMs only (on SPIN BQMs the bound computation is a known defect, kept as corpus case)",
                "DQM: cross_zero=False only; BQM: cross_zero and penalization_method='unbalanced' are covered (for 'unbalanced' only the exact added polynomial is claimed)"]
-PARTIAL = ["C16_dqm_log10_covers_partial: log10 covers 0..U for U <= 300 (by computation); the gap itself is refuted"]
+PARTIAL = []
